@@ -20,7 +20,7 @@ import re
 
 MANIFEST = dict(
     category="proof",
-    technique="Lean 4 theorems over a hand-written model of the compare engine + differential correspondence with the implementation",
+    technique="Lean 4 theorems over a hand-written model of the compare engine + Python-subset-to-Lean translator of the record branch of generate_composite_keys (regenerated from the source on every run) with machine-checked equality to the model + differential correspondence with the implementation",
     text="Lean theorems for the keyed compare with an arbitrary composite key (single/multi field, str or tuple) and no path options: C08_perm_invariant / C08_perm_invariant_lines - if the composite keys are pairwise different within every list (UniqueKeys: also list items are not themselves lists and key fields are scalars), permuting the lists of either operand at any depth of the enclosing trees (PermTree, including keyed lists nested inside records) changes neither the verdict nor the number of differences lines; C08_perm_invariant_values - the same with uniqueness stated on the VALUES of the key fields (UniqueVals: in every list the items have pairwise different identities itemId = the (field, value) pairs of the key fields of a record / the value of any other item) plus ONE hypothesis about the key function, KeyInjIn: within each list the key text - since fix C08-b the JSON text json.dumps(dict of the key fields, sort_keys=True, default=repr) - is injective on those identities (true of json.dumps on Python values; carried, like KeyFaithfulOn in C07, because floats are opaque lexemes in the model; C08_unique_values_unique_keys is the bridge); C08_key_type_separation - PROVED part of that injectivity, the part the defect violated: two records keyed by one field whose values are leaves of different type (None, bool, int, str) never share a key, for all values (7 / '7', None / 'None', True / 'True', 1 / True); C08_int_str_key_fixed / C08_separator_fixed - the inputs of the repaired finding C08-b ([{'id':7,..},{'id':'7',..}] against itself reversed: nothing reported; {'id':7} vs {'id':'7'}: unique on both sides; {'a':'1;b=2'} vs {'a':'1','b':'2'} under ('a','b'): unique on both sides); C08_classification - one keyed level with unique keys equals: the results of the matched pairs, then exactly one self-unique entry per left element whose key is absent on the right and one other-unique entry per right element whose key is absent on the left (every record classified exactly once), C08_classification_lines the same as a count, C08_prefix_independent; counter-example theorems C08_needs_unique_keys_cex, C08_needs_stable_keys_cex show the hypotheses are needed. The statement 'scalar list items are matched by value irrespective of position' is covered by C07_default_exact (multiset equality up to deq of the non-record items, under KeyFaithfulOn) and executed by evaluator 'scalars'. The model (lean/N0Verif/Model/Compare.lean) follows n0dict.compare/direct_compare, n0list.compare/direct_compare, xpath_match, generate_composite_keys, update_extend and the flag machine branch by branch for the code WITH fix patches C07-a, C08-a, C09-a, C07-b, C07-c, C09-b, C10-a, C07-d, C08-b, C10-c applied; it is compared with the implementation on generated pairs of trees (verdict, entry sets with rendered paths and values, number of prose lines, exception class) and the statement itself is executed on the implementation with Python-side oracles that are TYPE-AWARE (spec_key identifies a record by the (name, type, value) of its key fields, never by a text; the generators put 7/'7', None/'None', True/'True', 1.0/'1.0', '' and values containing ';field=' into key fields and drop key fields from some records). SOURCE TIE of the per-record key computation: on every run harness/translate_py_keys.py re-translates the record branch of generate_composite_keys (str -> one-element list, `if key in line`, the transform lookup through xpath_match with prefix[i]/key, key_fields[key] = ..., JSON text of the key fields or the empty key; json.dumps(sort_keys, default=repr) = the model's jsonVal, shared not translated) into lean/N0Verif/Gen/CompositeKeysPy.lean and Lean re-checks C08_generated_keys_step (one loop iteration = one step of recordFields), C08_generated_keys_record (translated record branch = fieldsKey (recordFields ..) for every option record, path and record), C08_generated_keys_keyOf and C08_generated_keys_records (= keyOf / keysOf on dictionaries and lists of dictionaries); a change of that code either keeps the equalities or a proof obligation fails and the cmp.keys/ck stream supplies the input.",
     note="UniqueKeys restricts list items to scalars/records (a list nested directly in a list is keyed by its JSON text, which is not stable under permutation of the inner list: cex theorem). Exceptions: permutation may change which exception is raised first, so invariance is stated on 'count or exception', not on the exception class.",
     design_ref='5/C08',
